@@ -567,3 +567,95 @@ func genBuf(p *pkg, out string) {
 		"Lemma sync_get_prog : g_get_prog = get_prog.\nProof. vm_compute. reflexivity. Qed.\n"
 	os.WriteFile(filepath.Join(out, "SyncBuf.v"), []byte(lems), 0o644)
 }
+
+// ---------------------------------------------------------------- vbint.ReadFrom
+
+func readStmts(p *pkg, list []ast.Stmt, constVal func(ast.Expr) (string, bool)) string {
+	var out []string
+	for _, s := range list {
+		out = append(out, readStmt(p, s, constVal))
+	}
+	return "[" + strings.Join(out, "; ") + "]"
+}
+
+func readStmt(p *pkg, s ast.Stmt, constVal func(ast.Expr) (string, bool)) string {
+	src := squash(p.src(s))
+	switch src {
+	case "varmultiplieruint=1":
+		return "R_var_mult1"
+	case "varvalueuint":
+		return "R_var_value"
+	case "data:=make([]byte,1)":
+		return "R_make_data1"
+	case "variint64":
+		return "R_var_i"
+	case "if_,err:=io.ReadFull(r,data);err!=nil{returni,err}":
+		return "R_readfull_or_ret"
+	case "i++":
+		return "R_inc_i"
+	case "encodedByte:=data[0]":
+		return "R_eb_data0"
+	case "value+=uint(encodedByte)&uint(127)*multiplier":
+		return "R_value_acc"
+	case "multiplier=multiplier*128":
+		return "R_mult_step"
+	case `returni,unmarshalErr(v,"","sizeexceeded")`:
+		return "R_ret_err ESizeExceeded"
+	case "break":
+		return "R_break"
+	case "*v=vbint(value)":
+		return "R_set_value"
+	case "returni,nil":
+		return "R_ret_nil"
+	}
+	switch x := s.(type) {
+	case *ast.ForStmt:
+		if x.Init == nil && x.Cond == nil && x.Post == nil {
+			return "R_for " + readStmts(p, x.Body.List, constVal)
+		}
+	case *ast.IfStmt:
+		if x.Init == nil && x.Else == nil {
+			c := ""
+			if squash(p.src(x.Cond)) == "encodedByte&128==0" {
+				c = "RC_eb_hi0"
+			} else if b, ok := x.Cond.(*ast.BinaryExpr); ok && b.Op == token.GTR && squash(p.src(b.X)) == "multiplier" {
+				if k, ok := constVal(b.Y); ok {
+					c = "(RC_mult_gt " + k + "%N)"
+				}
+			}
+			if c != "" {
+				return "R_if " + c + " " + readStmts(p, x.Body.List, constVal)
+			}
+		}
+	}
+	return fmt.Sprintf("R_unknown %q", src)
+}
+
+func genRead(p *pkg, out string) {
+	info, _ := p.typecheck()
+	constVal := func(e ast.Expr) (string, bool) {
+		if tv, ok := info.Types[e]; ok && tv.Value != nil {
+			return tv.Value.ExactString(), true
+		}
+		return "", false
+	}
+	body := `[R_unknown "missing"]`
+	if fd := p.funcs["vbint.ReadFrom"]; fd != nil && fd.Body != nil {
+		sig := squash(p.src(fd.Type))
+		if len(fd.Recv.List) == 1 && len(fd.Recv.List[0].Names) == 1 {
+			sig = "(" + fd.Recv.List[0].Names[0].Name + squash(p.src(fd.Recv.List[0].Type)) + ")" + sig
+		}
+		if sig == "(v*vbint)func(rio.Reader)(int64,error)" {
+			body = readStmts(p, fd.Body.List, constVal)
+		} else {
+			body = fmt.Sprintf("[R_unknown %q]", "signature "+sig)
+		}
+	}
+	defs := "(* generated by tools/gosync (wire.go) - do not edit *)\nFrom MQ Require Import Model.ReadIR.\nFrom Coq Require Import List NArith String.\nImport ListNotations.\nLocal Open Scope string_scope.\n\n" +
+		"(* vbint.ReadFrom, statement by statement *)\nDefinition g_vb_read_prog : list rs :=\n  " + body + ".\n"
+	os.WriteFile(filepath.Join(out, "GenRead.v"), []byte(defs), 0o644)
+	lems := "(* generated by tools/gosync (wire.go) - do not edit *)\nFrom MQ Require Import Model.ReadIR gen.GenRead.\nFrom Coq Require Import List String.\n\n" +
+		"(* vbint.ReadFrom is the statement list the model runs (Proofs/ReadIRP.v: running it is Stream.vb_stream) *)\n" +
+		"Lemma sync_vb_read_prog : g_vb_read_prog = vb_read_prog.\nProof. vm_compute. reflexivity. Qed.\n"
+	os.WriteFile(filepath.Join(out, "SyncRead.v"), []byte(lems), 0o644)
+}
